@@ -199,12 +199,31 @@ theorem parse_exact_scalars (cfg : Cfg) (bs : Bytes) (hc : cfg.comments = false)
     | none => simp [hv] at h
     | some v => exact (run_complete cfg bs v hv).1
 
+/-- SOUNDNESS also for a root string, provided the text contains no `\u` escape (no backslash followed by `u`; plain characters,
+    raw UTF-8 and the eight two-character escapes are all covered): whatever the model accepts (comments off) among the documents
+    whose root is a literal, a number or such a string, the reference reads as a value, with the reported events those of the
+    value. Strings with `\u` escapes are left out because the converse is false for some of them (lone low surrogate, high
+    surrogate followed by a non-low `\uXXXX`: accepted by the parser, no value in the reference). -/
+theorem parse_sound_scalars_and_plain_strings (cfg : Cfg) (bs : Bytes) (hc : cfg.comments = false)
+    (hroot : ∀ c r, bs.dropWhile isWs = c :: r → c ≠ 91 ∧ c ≠ 123)
+    (hnu : ∀ pre post, bs ≠ pre ++ 92 :: 117 :: post)
+    (h : accepted (run cfg bs) = true) :
+    ∃ v, parseText { comments := false, trailingComma := false, maxDepth := cfg.maxDepth } bs = some v ∧
+      (run cfg bs).evs.reverse.map eraseNoesc = eventsOf v := by
+  obtain ⟨v, hv⟩ := run_sound_scalar_str cfg hc bs hroot hnu h
+  exact ⟨v, hv, (run_complete cfg bs v hv).2⟩
+
 -- the model refuses what the grammar refuses: "01", "1.", "-", "tru", "nul l", "1 2"
 example : accepted (run ⟨8, false, false⟩ [48, 49]) = false := by decide
 example : accepted (run ⟨8, false, false⟩ [49, 46]) = false := by decide
 example : accepted (run ⟨8, false, false⟩ [45]) = false := by decide
 example : accepted (run ⟨8, false, false⟩ [116, 114, 117]) = false := by decide
 example : accepted (run ⟨8, false, false⟩ [49, 32, 50]) = false := by decide
+-- … and the two surrogate texts on which parser and reference differ (accepted / no value): "\\udc00" and "\\ud800\\u0041"
+example : accepted (run ⟨8, false, false⟩ [34, 92, 117, 100, 99, 48, 48, 34]) = true ∧
+    (parseText { comments := false, trailingComma := false, maxDepth := 8 } [34, 92, 117, 100, 99, 48, 48, 34]).isSome = false := by decide
+example : accepted (run ⟨8, false, false⟩ [34, 92, 117, 100, 56, 48, 48, 92, 117, 48, 48, 52, 49, 34]) = true ∧
+    (parseText { comments := false, trailingComma := false, maxDepth := 8 } [34, 92, 117, 100, 56, 48, 48, 92, 117, 48, 48, 52, 49, 34]).isSome = false := by decide
 end ParserRefinement
 
 /-! ### the option flags relax exactly one construct each (kernel-evaluated instances, all four flag pairs) -/
